@@ -304,8 +304,13 @@ def one_tree(tspec, acc, rnd, sample=False, forced=None):
                             return ".*" + name + "$"
                         if r < 0.75:
                             return ".*/" + name  # anchored at the start only: also excludes .../name_suffix and .../name/...
-                        if r < 0.85:
+                        if r < 0.82:
                             return name  # cannot match at the start of an absolute path
+                        if r < 0.9:
+                            # top-level alternation after a leading wildcard: the second branch is anchored at the start
+                            # of the path as well and can never match an absolute path
+                            acc.count("regex_exclusions_with_top_level_alternation")
+                            return ".*/" + name + "$|" + rnd.choice(sorted(trees.NAMES[:12]))
                         return ".*/" + name + "(/|$)"
                     pats = [rxform(p) for p in pats]
                     if rnd.random() < 0.3:
